@@ -48,6 +48,17 @@ def special_grammar(r):
     return [call('cmd', e)]
 
 
+def shared_word_grammar(r):
+    w = ('word', (lit(r.choice(['--color=', '-o', 'k:'])), alt(lit('always'), lit('never', 'no "colour"'))))
+    refs = [seq(lit(x), nt('OPT')) for x in r.sample(['add', 'rm', 'mv', 'ls'], r.randint(2, 3))]
+    if r.random() < 0.5:
+        refs.append(seq(lit('both'), nt('OPT'), nt('OPT')))
+    stmts = [call('cmd', alt(*refs)), defn('OPT', None, w if r.random() < 0.7 else alt(w, lit('plain')))]
+    if r.random() < 0.4:
+        stmts.append(call('cmd', seq(lit('again'), opt(nt('OPT')), cmd('echo "x\\y"'))))
+    return stmts
+
+
 def states_of(flat):
     s = {flat['start']} | set(flat['acc'])
     for a, _, b in flat['tr']:
@@ -229,7 +240,7 @@ def run_job(job, acc):
     try:
         for i in range(n):
             k = r.random()
-            stmts = special_grammar(r) if k < 0.45 else c04.biased_grammar(r)
+            stmts = special_grammar(r) if k < 0.45 else (shared_word_grammar(r) if k < 0.6 else c04.biased_grammar(r))
             text, _, _ = gast.print_grammar(stmts)
             special = k < 0.45
             for shell in common.SHELLS:
